@@ -409,5 +409,6 @@ ThinMcp ==
     /\ Len(hist) >= 3
     /\ \E c \in 1..Len(hist) : hist[c].op = "compact"
     /\ \E k \in TKeys : \E i \in 1..(Len(hist) - 1) : RefStep(i, k) /\ ToolStep(Len(hist), k)
+ViewGen == <<View, ThinMcp>>
 ExportThinMcp == ThinMcp => PrintT(<<"REPLAY", ToJson([steps |-> hist])>>)
 =============================================================================
